@@ -111,7 +111,7 @@ Definition w_ok : node :=
        var v : tVarByteArray
        Purge(V)
      endproc
-   real report (C16 classes): PURGE:2:2:6:2:7:118 *)
+   real report (C16 classes): (none) since /repo ef936ba; before: PURGE:2:2:6:2:7:118 *)
 Definition w_case : node :=
   Node KAstRoot [] 0 (mkRange (mkPos 0 0) (mkPos 0 0)) [] [
 (Node KAstClass [97;67;97;115;101] 0 (mkRange (mkPos 0 0) (mkPos 0 11)) [(1, AT (mkTok 6 (mkRange (mkPos 0 6) (mkPos 0 11)) TIdentifier [97;67;97;115;101])); (2, AL [])] []);
@@ -128,7 +128,7 @@ Definition w_case : node :=
      proc Init
        foo('pass')
      endproc
-   real report (C16 classes): (none) *)
+   real report (C16 classes): INH:2:1:5:1:9:73.110.105.116 since /repo 44578d5; before: (none) *)
 Definition w_passlit : node :=
   Node KAstRoot [] 0 (mkRange (mkPos 0 0) (mkPos 0 0)) [] [
 (Node KAstClass [97;67;97;115;101] 0 (mkRange (mkPos 0 0) (mkPos 0 11)) [(1, AT (mkTok 6 (mkRange (mkPos 0 6) (mkPos 0 11)) TIdentifier [97;67;97;115;101])); (2, AL [])] []);
